@@ -6,4 +6,16 @@ CHECKS = {
    technique=RM + "reference-oracle monitor (net.SplitHostPort) over generated and real-socket remote addresses",
    text="Every generated remote address / Host / header / variable name is pushed through the real extractors and compared with an independent oracle; real 127.0.0.1 and [::1] sockets supply the strings net/http actually produces. Held on all inputs generated; inputs are sampled, not enumerated.",
    note="Trusts net.SplitHostPort as the meaning of 'peer IP of host:port'. For malformed addresses only 'no panic' is demanded."),
+ "C01": dict(level="exploration",
+   technique=RM + "sliding-window count oracle over recorded selection sequences; exact-total check and porcupine linearizability check of concurrent call/return histories under the race detector",
+   text="Every window offset of every generated selection sequence (>=3W selections per pool, pools reached through random prior histories) is compared with the exact count vector w_i/g; concurrent callers are checked by exact totals over K*W calls and by linearizability of recorded histories against the periodic sequence, with the race detector watching the balancer's state. Interleavings and weight vectors are sampled.",
+   note="W capped at 20000; porcupine timeouts count as inconclusive; weights read back through ServerWeight()."),
+ "C02": dict(level="exploration",
+   technique=RM + "reference-model monitor (membership map) checked after every administration call, in-place URL mutation by downstream handlers, interval-membership oracle for requests racing with administration (race build)",
+   text="The same generated add/update/remove/request script is run against RoundRobin and Rebalancer(RoundRobin); after every call Servers(), ServerWeight() and a full rotation of routed requests are compared with a reference map keyed by (scheme,host,path); handlers that rewrite req.URL in place probe the sticky and non-sticky paths; under concurrency each routed request must hit a server that was a positive-weight member at some instant between its call and return.",
+   note="A new server added with weight 0 is modelled with the default weight 1. With scripted (ready) meters the weight comparison is made only right after membership/weight changes."),
+ "C17": dict(level="exploration",
+   technique=RM + "exact-bounds oracle over the harness's own increment log on the frozen library clock",
+   text="Histories of Inc/Count/Clone/Reset and clock advances (sub-resolution, exact multiples, window +-1ns, multi-window gaps) for N in 1..12 and nine whole and fractional resolutions; each read is compared with the two exact sums the statement names. Ratio counters are checked the same way plus Ratio()==a/(a+b) at the same instant.",
+   note="Frozen clock only; the instant between the two Now() calls inside one Inc is not separable without a hook inside Inc."),
 }
